@@ -1,6 +1,261 @@
+"""Nested enumerations of C01 (DESIGN §4.1 'what is enumerated'): every expression of the grammar
+with <= 1 (quick) / <= 2 (thorough) binary operators in every expression context; every function
+signature shape; every declaration shape; constants of §4.11 in three contexts."""
+from __future__ import annotations
+
+import itertools
+
+from .. import explore, progrun
+from ..findings import Failure
+from ..model import norm
+from ..model.norm import (P, SP, KW, V, C, CH, S, binop, call, paren, index, arrow, dot, unary, deref, cast,
+                          sizeof, post, pre, assign, ret, ctrl, IND, render, Line)
+
+BINOPS = ["+", "-", "*", "/", "%", "<", ">", "<=", ">=", "==", "!=", "&&", "||", "&", "|", "^", "<<", ">>"]
+ASSIGNOPS = ["=", "+=", "-=", "*=", "/=", "%=", "&=", "|=", "^=", "<<=", ">>="]
+
+
+def i_atoms():
+    """(label, pieces, is_I1) -- int-valued atoms covering every atom kind / first / last token class."""
+    return [
+        ("name", V("n"), True), ("const", C("42"), True), ("char", CH("'a'"), False),
+        ("index", index(V("p"), V("n")), True), ("arrow", arrow(V("lst"), "len"), True),
+        ("derefdot", dot(paren(deref(V("lst"))), "len"), True), ("dot", dot(V("pt"), "x"), True),
+        ("call1", call("ft_f", [V("n")]), True), ("call0", call("ft_g", []), True),
+        ("deref", deref(V("p")), False), ("neg", unary("-", V("n")), False), ("not", unary("!", V("n")), False),
+        ("bnot", unary("~", V("n")), False), ("notp", unary("!", V("p")), False), ("paren", paren(V("n")), True),
+        ("cast", cast("int", 0, V("c")), False), ("sizeoft", sizeof(norm.type_pieces("int")), False),
+        ("sizeofn", sizeof(V("n")), False), ("postinc", post(V("n"), "++"), False), ("postdec", post(V("n"), "--"), False),
+        ("preinc", pre("++", V("n")), False), ("predec", pre("--", V("n")), False), ("hex", C("0x1F"), True),
+        ("ulong", C("10UL"), True), ("float", C("1.5f"), True), ("negconst", unary("-", C("1")), False),
+        ("index2", index(V("p"), binop(V("n"), "+", C("1"))), True),
+        ("castuc", cast("unsigned char", 0, V("c")), False), ("parenbin", paren(binop(V("n"), "+", C("1"))), True),
+        ("callnest", call("ft_f", [call("ft_g", [])]), True),
+    ]
+
+
+def p_atoms():
+    return [
+        ("pname", V("p")), ("null", [P("null", "NULL")]), ("string", S('"abc"')), ("addr", unary("&", V("n"))),
+        ("castp", cast("char", 1, V("p"))), ("arrowp", arrow(V("lst"), "next")), ("padd", binop(V("p"), "+", V("n"))),
+        ("pcall", call("ft_h", [V("p")])), ("addridx", unary("&", index(V("p"), V("n")))),
+    ]
+
+
+CONTEXTS = ["assign", "addassign", "if", "while", "return", "arg0", "arg1", "index"]
+ASSIGNING_CTX = ("assign", "addassign", "index")
+SIDE_EFFECT = ("postinc", "postdec", "preinc", "predec")
+
+
+def _allowed(ctx, *labels):
+    """The Norm forbids two assignments on one line: ++/-- count as assignments, so an expression
+    may hold at most one of them, and none at all when the statement itself assigns."""
+    n = sum(1 for l in labels if l in SIDE_EFFECT)
+    return n == 0 or (n == 1 and ctx not in ASSIGNING_CTX)
+
+
+def stmt_lines(ctx, e):
+    """Body lines (Lines) holding expression `e` (pieces) in context `ctx`."""
+    if ctx == "assign":
+        return [norm.stmt_line(1, assign(V("n"), "=", e), "simple")]
+    if ctx == "addassign":
+        return [norm.stmt_line(1, assign(V("n"), "+=", e), "simple")]
+    if ctx in ("if", "while"):
+        return [norm.stmt_line(1, ctrl(ctx, e), "ctrl"), norm.stmt_line(2, norm.SIMPLE["call"](), "simple")]
+    if ctx == "return":
+        return [norm.stmt_line(1, ret(e), "return")]
+    if ctx == "arg0":
+        return [norm.stmt_line(1, call("ft_f", [e, V("n")]) + [P("semi", ";")], "simple")]
+    if ctx == "arg1":
+        return [norm.stmt_line(1, call("ft_f", [V("n"), e]) + [P("semi", ";")], "simple")]
+    if ctx == "index":
+        return [norm.stmt_line(1, assign(index(V("p"), e), "=", C("0")), "simple")]
+    raise KeyError(ctx)
+
+
+FUNC_HEAD = "int\tft_test(int n, char *p, char c, t_list *lst)\n{\n\tt_point\tpt;\n\n\tpt.x = 0;\n"
+FUNC_TAIL = "\treturn (n);\n}\n"
+
+
+def body_for(ctx, e):
+    return FUNC_HEAD + render(stmt_lines(ctx, e)) + FUNC_TAIL
+
+
+def expr_cases(tier, seed):
+    """Yield (label, ctx, expr_pieces)."""
+    ia, pa = i_atoms(), p_atoms()
+    nctx = len(CONTEXTS)
+    # atoms alone, every context
+    for lab, e, _ in ia:
+        for ctx in CONTEXTS:
+            if _allowed(ctx, lab):
+                yield (f"atom:{lab}", ctx, e)
+    for lab, e in pa:
+        for ctx in ("if", "while", "arg0", "arg1"):
+            yield (f"patom:{lab}", ctx, e)
+        yield (f"patom:{lab}:cmpnull", "if", binop(e, "==", [P("null", "NULL")]))
+        yield (f"patom:{lab}:not", "while", unary("!", e) if lab not in ("addr", "castp", "padd", "addridx") else unary("!", paren(e)))
+    # one binary operator over the full pool
+    k = 0
+    for (la, a, _), (lb, b_, _), op in itertools.product(ia, ia, BINOPS):
+        k += 1
+        if tier == "thorough":
+            ctxs = CONTEXTS
+        else:
+            ctxs = [CONTEXTS[(k + seed) % nctx]]
+        for ctx in ctxs:
+            if _allowed(ctx, la, lb):
+                yield (f"bin:{la}{op}{lb}", ctx, binop(a, op, b_))
+    for (la, a), (lb, b_) in itertools.product(pa, pa):
+        for op in ("==", "!="):
+            yield (f"pbin:{la}{op}{lb}", "if", binop(a, op, b_))
+    # compound assignments
+    for op in ASSIGNOPS:
+        for lab, e, _ in ia:
+            if lab not in SIDE_EFFECT:
+                yield (f"asg:{op}:{lab}", None, norm.stmt_line(1, assign(V("n"), op, e), "simple"))
+    # unary / cast / paren nesting <= 2
+    i1 = [(l, e) for l, e, ok in ia if ok]
+    for (l, e) in i1:
+        for u in ("-", "!", "~"):
+            yield (f"un:{u}{l}", CONTEXTS[(k + seed) % nctx], unary(u, e))
+            yield (f"un:{u}({l})", "assign", unary(u, paren(e)))
+            k += 1
+        yield (f"cast:{l}", "assign", cast("long", 0, e))
+        yield (f"paren2:{l}", "return", paren(paren(e)))
+    if tier == "thorough":
+        small = [ia[i] for i in (0, 1, 3, 7, 9, 10, 14, 15, 18, 20)]
+        ops = ["+", "-", "*", "<", "==", "&&", "||", "&", "<<", "%"]
+        for (la, a, _), (lb, b_, _), (lc, c_, _) in itertools.product(small, small, small):
+            for o1, o2 in itertools.product(ops, ops):
+                k += 1
+                ctx = CONTEXTS[(k + seed) % nctx]
+                yield (f"bin2l:{la}{o1}{lb}{o2}{lc}", ctx, binop(binop(a, o1, b_), o2, c_))
+                yield (f"bin2p:{la}{o1}({lb}{o2}{lc})", ctx, binop(a, o1, paren(binop(b_, o2, c_))))
+                yield (f"bin2q:({la}{o1}{lb}){o2}{lc}", ctx, binop(paren(binop(a, o1, b_)), o2, c_))
+
+
+def sig_cases(tier):
+    """Function signature shapes x {definition, prototype}."""
+    rtypes = [("", "int", 0), ("", "char", 1), ("", "void", 0), ("static ", "int", 0), ("", "unsigned int", 0),
+              ("", "t_list", 1), ("", "char", 2), ("static ", "unsigned long long", 0), ("", "struct s_point", 1),
+              ("", "const char", 1), ("", "size_t", 0), ("", "long long", 0)]
+    ptypes = [("int", 0, ""), ("char", 1, ""), ("const char", 1, ""), ("char", 2, ""), ("t_list", 1, ""),
+              ("unsigned int", 0, ""), ("struct s_point", 1, ""), ("char", 0, "[]"), ("size_t", 0, ""),
+              ("void", 1, ""), ("long long", 0, ""), ("const t_list", 1, "")]
+    names = ["a", "bb", "ccc", "dddd"]
+    plists = [[]]
+    for n in (1, 2, 3, 4):
+        if tier == "thorough" and n <= 2:
+            for combo in itertools.product(range(len(ptypes)), repeat=n):
+                plists.append([(ptypes[i][0], ptypes[i][1], names[j], ptypes[i][2]) for j, i in enumerate(combo)])
+        else:
+            for r in range(len(ptypes)):
+                plists.append([(ptypes[(r + j * 5) % len(ptypes)][0], ptypes[(r + j * 5) % len(ptypes)][1], names[j],
+                                ptypes[(r + j * 5) % len(ptypes)][2]) for j in range(n)])
+    for (prefix, typ, stars) in rtypes:
+        for pl in plists:
+            sig = norm.sig_line(prefix, typ, stars, "ft_subject", pl)
+            if norm.line_width("".join(p.text for p in sig)) > 80:
+                continue
+            retv = "\treturn ;\n" if (typ == "void" and stars == 0) else "\treturn (0);\n"
+            yield (f"sigdef:{prefix}{typ}{'*' * stars}/{len(pl)}", "".join(p.text for p in sig) + "\n{\n" + retv + "}\n")
+            w = len((prefix + typ).strip())
+            psig = norm.sig_line(prefix, typ, stars, "ft_subject", pl, proto_col=norm.next_stop(w + 1))
+            ptxt = "".join(p.text for p in psig) + ";\n"
+            if norm.line_width(ptxt.rstrip("\n")) > 80:
+                continue
+            yield (f"sigproto:{prefix}{typ}{'*' * stars}/{len(pl)}", ptxt + "\nint\tmain(void)\n{\n\treturn (0);\n}\n")
+
+
+def decl_cases(tier):
+    types = ["int", "char", "long", "short", "float", "double", "unsigned int", "unsigned char", "unsigned long long",
+             "long long", "long int", "signed char", "size_t", "ssize_t", "t_list", "struct s_point", "enum e_color",
+             "union u_data", "const int", "const char", "unsigned long", "t_point"]
+    declrs = [(0, ""), (1, ""), (2, ""), (0, "[10]"), (0, "[4][4]"), (1, "[3]"), (0, "[0x10]"), (0, "[BUFFER_SIZE]"),
+              (3, "")]
+    for t in types:
+        for stars, arr in declrs:
+            col = norm.min_col(t, 1)
+            pcs = norm.decl_pieces(t, stars, "var", "", col)
+            txt = "".join(p.text for p in pcs) + arr + ";\n"
+            yield (f"decl:{t}{'*' * stars}{arr}", "int\tft_test(int n)\n{\n" + txt + "\n\treturn (n);\n}\n")
+    # aligned pairs (the wider type decides the column)
+    for t1, t2 in itertools.product(types, types):
+        col = max(norm.min_col(t1, 1), norm.min_col(t2, 1))
+        a = norm.decl_pieces(t1, 0, "aa", "", col)
+        b = norm.decl_pieces(t2, 1, "bb", "", col)
+        if a is None or b is None:
+            continue
+        txt = "".join(p.text for p in a) + ";\n" + "".join(p.text for p in b) + ";\n"
+        yield (f"declpair:{t1}|{t2}", "int\tft_test(int n)\n{\n" + txt + "\n\treturn (n);\n}\n")
+
+
+def const_cases(tier):
+    from ..model import literals
+
+    n = 2 if tier == "quick" else 3
+    seen = set()
+    gens = itertools.chain(literals.valid_integers(n, 2, "0bBe9", 3), literals.valid_floats(1, 1),
+                           literals.valid_chars(), literals.valid_strings(1, 1))
+    for label, lit in gens:
+        if lit in seen:
+            continue
+        seen.add(lit)
+        is_str = lit.endswith('"')
+        if is_str:
+            yield (f"const:{label}", FUNC_HEAD + f"\tft_puts({lit});\n" + FUNC_TAIL)
+            continue
+        yield (f"const:{label}", FUNC_HEAD + f"\tn = {lit};\n" + FUNC_TAIL)
+        if len(seen) % 3 == 0:
+            yield (f"const:{label}:ret", FUNC_HEAD + f"\tif (n == {lit})\n\t\treturn ({lit});\n" + FUNC_TAIL)
+        if len(seen) % 5 == 0:
+            yield (f"const:{label}:def", f"#define VALUE {lit}\n\nint\tmain(void)\n{{\n\treturn (0);\n}}\n")
+
+
+def all_cases(tier, seed):
+    for label, ctx, e in expr_cases(tier, seed):
+        if ctx is None:
+            body = FUNC_HEAD + render([e]) + FUNC_TAIL
+        else:
+            body = body_for(ctx, e)
+        yield (f"{label}@{ctx}", body)
+    yield from sig_cases(tier)
+    yield from decl_cases(tier)
+    yield from const_cases(tier)
+
+
 def explore_expressions(tier, seed, st, failures):
-    return
+    cases = list(all_cases(tier, seed))
+    tasks = [(".c", "test.c", body) for _, body in cases]
+    res = explore.pmap(progrun.eval_body, tasks, chunksize=32)
+    st.runs += len(cases)
+    st.transitions += len(cases)
+    kinds = {}
+    for (label, body), (errs, sigs, exc, status, stdout) in zip(cases, res):
+        k = label.split(":")[0]
+        kinds[k] = kinds.get(k, 0) + 1
+        payload = {"kind": "expr", "label": label, "body": body}
+        if exc is not None:
+            failures.append(Failure("C01", f"exception:{exc[0]}@{k}", f"{exc} on {label}", payload))
+        for d, sig in zip(errs, sigs):
+            failures.append(Failure("C01", "spurious:" + sig, f"{d[1]} at line {d[2]} col {d[3]} in {label}: "
+                                    f"{body.splitlines()[d[2] - 13] if d[2] and 0 <= d[2] - 13 < len(body.splitlines()) else ''!r}",
+                                    payload))
+        if stdout:
+            failures.append(Failure("C01", "stray-output", f"stray output {stdout[:40]!r}", payload))
+    for k, v in kinds.items():
+        st.bump("nested:" + k, v)
+    st.sample({"nested_case": cases[len(cases) // 2][0], "body": cases[len(cases) // 2][1]})
 
 
 def replay(payload):
-    return []
+    errs, sigs, exc, status, stdout = progrun.eval_body((".c", "test.c", payload["body"]))
+    out = []
+    if exc is not None:
+        out.append(Failure("C01", f"exception:{exc[0]}", str(exc), payload))
+    for d, sig in zip(errs, sigs):
+        out.append(Failure("C01", "spurious:" + sig, f"{d}", payload))
+    if stdout:
+        out.append(Failure("C01", "stray-output", stdout[:40], payload))
+    return out
